@@ -216,6 +216,15 @@ def run_victim_file(sh, s, d, case, only=None):
         def fault(op):
             if op[0] in ('write', 'truncate') and ('Data.fs' in op[1] or '/blobs/' in op[1]):
                 count[0] += 1
+                if site['kind'] == 'raw' and site['how'] == 'persist':
+                    # the temporary commit file cannot be written from its k-th write on (disk full) and stays so until
+                    # the abort has been attempted
+                    if op[1].endswith('.tmp') and (count[0] == site['k'] or fired[0]):
+                        if not fired[0]:
+                            fired[0] = True
+                            fired.append((op[0], 'tmp-persisting'))
+                        return ('raise', errno.ENOSPC)
+                    return None
                 if site['kind'] == 'raw' and count[0] == site['k']:
                     fired[0] = True
                     fired.append((op[0], 'tmp' if op[1].endswith('.tmp') else 'blob' if '/blobs/' in op[1] else 'data'))
@@ -251,8 +260,21 @@ def run_victim_file(sh, s, d, case, only=None):
                 LOG.enabled = False
                 raise
         finally:
-            LOG.fault = None
-            LOG.enabled = False
+            persisting = site['kind'] == 'raw' and site.get('how') == 'persist' and fired[0]
+            if not persisting:
+                LOG.fault = None
+                LOG.enabled = False
+        if persisting:
+            # the abort is attempted while the failure lasts (it may fail itself), then once more after it is over, as a
+            # transaction manager that logs the first error and a caller that retries would do
+            sh.count('aborts_attempted_while_the_write_failure_persists')
+            for again in (False, True):
+                try:
+                    fs.tpc_abort(tmeta)
+                except Exception:
+                    pass
+                LOG.fault = None
+                LOG.enabled = False
         if exc is not None and site['kind'] in ('stale', 'quota', 'metadata'):
             fired[0] = True
             fired.append((steps[done][0], type(exc).__name__))
@@ -376,6 +398,7 @@ def run_victim_file(sh, s, d, case, only=None):
     sites += [{'kind': 'abort', 'after': nsteps, 'no_reads': True}]
     sites += [{'kind': 'raw', 'k': k, 'how': 'short', 'no_reads': True} for k in range(max(1, nraw - 3), nraw + 1)]
     sites += [{'kind': 'raw', 'k': k, 'how': how} for k in range(1, nraw + 1) for how in ('raise', 'short')]
+    sites += [{'kind': 'raw', 'k': k, 'how': 'persist'} for k in range(1, nraw + 1)]
     nstores = nsteps - 2
     sites += [{'kind': 'stale', 'stale_at': i} for i in range(nstores) if kindv in ('new', 'update', 'multi', 'big', 'delete', 'blob')]
     sites += [{'kind': 'quota', 'extra': e} for e in (1, 60, 300, 5000)]
@@ -454,8 +477,14 @@ def run_victim_other(sh, s, d, case):
     sites = [('abort', a) for a in range(1, nst + 3)] + [('stale', i) for i in range(nst)] + [('foreign', i) for i in range(nst + 2)]
     if kind == 'demo-file':
         sites += [('metadata', f) for f in ('user', 'desc', 'ext')]
+        sites += [('tmpfull', 0)]          # the changes storage's temporary commit file cannot be written until the abort was attempted
     for (sk, arg) in sites:
         pre = observe(st, full=False, undolog=False)
+        if sk == 'tmpfull':
+            import errno
+            recfs.LOG.ops = []
+            recfs.LOG.enabled = True
+            recfs.LOG.fault = lambda op: ('raise', errno.ENOSPC) if op[0] == 'write' and str(op[1]).endswith('.tmp') else None
         if sk == 'metadata':
             big = b'm' * 65536
             tmeta = TransactionMetaData(big if arg == 'user' else b'u', big if arg == 'desc' else b'd', {'x': 'y' * 70000} if arg == 'ext' else None)
@@ -496,9 +525,21 @@ def run_victim_other(sh, s, d, case):
             exc = e
         except Exception as e:
             from ZODB.FileStorage.FileStorage import FileStorageError
-            if not isinstance(e, FileStorageError):
+            if not isinstance(e, FileStorageError) and not (sk == 'tmpfull' and isinstance(e, OSError)):
+                recfs.LOG.fault = None
+                recfs.LOG.enabled = False
                 raise
             exc = e
+        if sk == 'tmpfull':
+            # the abort is attempted while the failure lasts (it may fail itself) and once more after it is over
+            sh.count('aborts_attempted_while_the_write_failure_persists')
+            for again in (False, True):
+                try:
+                    st.tpc_abort(tmeta)
+                except Exception:
+                    pass
+                recfs.LOG.fault = None
+                recfs.LOG.enabled = False
         fired = exc is not None or sk == 'abort'
         if sk == 'foreign' and exc is None:
             st.tpc_finish(tmeta)
@@ -519,7 +560,7 @@ def run_victim_other(sh, s, d, case):
         st.tpc_abort(tmeta)
         if fired:
             sh.count('faults_fired')
-            sh.count({'abort': 'abort_points', 'stale': 'stale_serial_sites', 'metadata': 'metadata_sites'}[sk])
+            sh.count({'abort': 'abort_points', 'stale': 'stale_serial_sites', 'metadata': 'metadata_sites', 'tmpfull': 'raw_op_faults'}[sk])
         wit = {'storage': kind, 'site': (sk, arg), 'exc': repr(exc)[:100], 'steps_done': done}
         c2 = dict(case, other=True)
         sh.count('snapshots_compared')
@@ -530,7 +571,7 @@ def run_victim_other(sh, s, d, case):
         locks = [('commit lock', st._commit_lock)] + ([('changes commit lock', st.changes._commit_lock)] if kind.startswith('demo') else [])
         for lname, lk in locks:
             if lk.locked():
-                what = 'over-long-metadata' if sk == 'metadata' else sk
+                what = 'over-long-metadata' if sk == 'metadata' else 'persisting-write-failure-on-the-temporary-file' if sk == 'tmpfull' else sk
                 sh.violation('c05:%s:%s-held-after-failed-transaction:%s' % (kind, lname.replace(' ', '-'), what), wit, c2)
                 return kind
         # follow-up commit (cannot block: the lock state was just read)
